@@ -22,6 +22,7 @@ from .kernel import Run, Streams
 
 VERIF_DIR = os.path.dirname(os.path.dirname(os.path.abspath(__file__)))
 RUN_TIMEOUT = int(os.environ.get("VERIF_RUN_TIMEOUT", "120"))
+EARLY_STOP = 25     # violating runs after which a part stops handing out further batches
 
 
 # --------------------------------------------------------------------------- environment
@@ -209,7 +210,7 @@ def run_batch(part, prop, tier, vseed, start, count, env, open_entries, spot_eve
 
 
 def _worker(wid, part, prop, tier, vseed, batches, counter, lock, deadline, session,
-            open_entries, outpath):
+            open_entries, outpath, nviol):
     signal.signal(signal.SIGINT, signal.SIG_DFL)
     env = Env(session)
     with open(outpath, "ab") as out:
@@ -219,7 +220,7 @@ def _worker(wid, part, prop, tier, vseed, batches, counter, lock, deadline, sess
                 counter.value = k + 1
             if k >= len(batches):
                 break
-            if time.time() > deadline:
+            if time.time() > deadline or nviol.value >= EARLY_STOP:
                 break
             start, count = batches[k]
             pickle.dump(("start", k), out)
@@ -228,6 +229,9 @@ def _worker(wid, part, prop, tier, vseed, batches, counter, lock, deadline, sess
                           want_samples=2 if k == 0 else 0)
             pickle.dump(("done", k, S), out)
             out.flush()
+            if S["viol_count"]:
+                with lock:
+                    nviol.value += S["viol_count"]
     os._exit(0)
 
 
@@ -253,6 +257,7 @@ def run_part(part, prop, tier, vseed, n_runs, jobs, wall_cap, session, open_entr
     batches = [(s, min(bs, n_runs - s)) for s in range(0, n_runs, bs)]
     ctx = multiprocessing.get_context("fork")
     counter = ctx.Value("q", 0, lock=False)
+    nviol = ctx.Value("q", 0, lock=False)
     lock = ctx.Lock()
     deadline = t0 + wall_cap
     pids = {}
@@ -267,7 +272,7 @@ def run_part(part, prop, tier, vseed, n_runs, jobs, wall_cap, session, open_entr
         if pid == 0:
             try:
                 _worker(w, part, prop, tier, vseed, batches, counter, lock, deadline, session,
-                        open_entries, outpath)
+                        open_entries, outpath, nviol)
             except BaseException:
                 traceback.print_exc()
                 os._exit(3)
@@ -312,7 +317,8 @@ def run_part(part, prop, tier, vseed, n_runs, jobs, wall_cap, session, open_entr
     info = {"planned": n_runs, "batches": len(batches), "batches_done": len(done),
             "crashed_batches": [batches[k] for k in crashed_batches],
             "dead_workers": [(p, s) for p, s, _ in dead],
-            "capped": len(done) + len(crashed_batches) < len(batches),
+            "capped": len(done) + len(crashed_batches) < len(batches) and nviol.value < EARLY_STOP,
+            "stopped_early_on_violations": nviol.value >= EARLY_STOP,
             "wall_s": round(time.time() - t0, 2)}
     return M, info
 
